@@ -219,3 +219,150 @@ B("C14", "copy-via-deepcopy-of-categories", CONT,
 B("C14", "fast-alignment-copy-via-merge", CONT,
   "        copy = self.copy()\n        unitary_alignments = []",
   "        copy = self.merge(Continuum(), in_place=False)\n        unitary_alignments = []")
+
+# =============================================================================================
+# C13
+# =============================================================================================
+REGRESSIONS.append(dict(prop="C13", id="regression/F6-unit-lt-reflexive", patch="2c1d80f.diff", rule="R-C13-1"))
+REGRESSIONS.append(dict(prop="C13", id="regression/F7-copy-drops-categories", patch="2b99579.diff", rule="R-C13-4"))
+REGRESSIONS.append(dict(prop="C13", id="regression/F24-reset-bounds-last-unit", patch="b25bba7.diff", rule="R-C13-7"))
+REGRESSIONS.append(dict(prop="C13", id="regression/F8b-cst-shares-categories", patch="7f523c6.diff", rule="R-C13-2"))
+M("C13", "label-order-reversed", CONT,
+  "                return self.annotation < other.annotation",
+  "                return self.annotation > other.annotation", "R-C13-1")
+M("C13", "none-last-instead-of-first", CONT,
+  """                return other.annotation is not None
+            elif other.annotation is None:
+                return False""",
+  """                return False
+            elif other.annotation is None:
+                return True""", "R-C13-1", "unlabelled units sorted last: contradicts the documented order")
+M("C13", "segment-only-order", CONT,
+  """        if self.segment == other.segment:
+            if self.annotation is None:""",
+  """        if self.segment == other.segment and False:
+            if self.annotation is None:""", "R-C13-1", "units with equal segments and different labels become unordered")
+M("C13", "bound-inf-not-updated", CONT,
+  "        self.bound_inf = min(self.bound_inf, segment.start)\n", "", "R-C13-3")
+M("C13", "bound-sup-uses-start", CONT,
+  "        self.bound_sup = max(self.bound_sup, segment.end)", "        self.bound_sup = max(self.bound_sup, segment.start)", "R-C13-3")
+M("C13", "add-annotator-overwrites", CONT,
+  """        if annotator not in self._annotations:
+            self._annotations[annotator] = SortedSet()
+
+    def add(self""",
+  """        self._annotations[annotator] = SortedSet()
+
+    def add(self""", "R-C13-3")
+M("C13", "category-only-for-new-annotator", CONT,
+  """        if annotator not in self._annotations:
+            self._annotations[annotator] = SortedSet()
+        if annotation is not None:
+            self._categories.add(annotation)""",
+  """        if annotator not in self._annotations:
+            self._annotations[annotator] = SortedSet()
+            if annotation is not None:
+                self._categories.add(annotation)""", "R-C13-3", "labels of later units are not registered")
+M("C13", "zero-duration-guard-after-insert", CONT,
+  """        if segment.duration == 0.0:
+            raise ValueError("Tried adding segment of duration 0.0")
+
+        if annotator not in self._annotations:
+            self._annotations[annotator] = SortedSet()""",
+  """        if annotator not in self._annotations:
+            self._annotations[annotator] = SortedSet()
+        if segment.duration == 0.0:
+            raise ValueError("Tried adding segment of duration 0.0")
+""", "R-C13-3", "a rejected unit leaves a new annotator behind")
+M("C13", "remove-resets-bounds", CONT,
+  "        annotations.remove(unit)\n", "        annotations.remove(unit)\n        self.reset_bounds()\n", "R-C13-3")
+M("C13", "eq-without-count-test", CONT,
+  """        if self.num_units != other.num_units:
+            return False
+        
+""", "", "R-C13-6", "zip truncates: a continuum equals any extension of itself")
+M("C13", "eq-ignores-annotator-names", CONT,
+  """        if self.annotators != other.annotators:
+            return False
+""", "", "R-C13-6")
+M("C13", "merge-in-place-skips-empty-annotators", CONT,
+  """        for annotator in continuum.annotators:
+            # ensure all annotators are added to the continuum,
+            # even those who do not have any annotated Units
+            current_cont.add_annotator(annotator)""",
+  """        if not in_place:
+            for annotator in continuum.annotators:
+                current_cont.add_annotator(annotator)""", "R-C13-5", "the two merge modes diverge")
+M("C13", "copy-flush-loses-bounds", CONT,
+  """        continuum = Continuum(self.uri)
+        continuum.bound_inf, continuum.bound_sup = self.bound_inf, self.bound_sup
+        continuum.best_window_size = self.best_window_size
+        return continuum
+
+    def copy(self)""",
+  """        continuum = Continuum(self.uri)
+        continuum.best_window_size = self.best_window_size
+        return continuum
+
+    def copy(self)""", "R-C13-4")
+M("C13", "foreign-module-assigns-annotations", SAM,
+  "        new_continnum = self._reference_continuum.copy_flush()\n",
+  "        new_continnum = self._reference_continuum.copy_flush()\n        new_continnum._annotations = SortedSet()\n", "R-C13-2")
+M("C13", "num-units-counts-annotators", CONT,
+  "        return sum(len(units) for units in self._annotations.values())",
+  "        return sum(1 for units in self._annotations.values())", "R-SUP")
+M("C13", "reset-bounds-min-of-ends", CONT,
+  "        self.bound_inf = min((next(iter(annotations)).segment.start for",
+  "        self.bound_inf = min((next(iter(annotations)).segment.end for", "R-C13-7")
+B("C13", "lt-via-tuple-comparison", CONT,
+  """        if self.segment == other.segment:
+            if self.annotation is None:
+                return other.annotation is not None
+            elif other.annotation is None:
+                return False
+            else:
+                return self.annotation < other.annotation
+        else:
+            return self.segment < other.segment""",
+  """        if self.segment != other.segment:
+            return self.segment < other.segment
+        if self.annotation is None or other.annotation is None:
+            return (self.annotation is not None) < (other.annotation is not None)
+        return self.annotation < other.annotation""")
+B("C13", "lt-params-renamed", CONT,
+  """    def __lt__(self, other: 'Unit'):
+        if self.segment == other.segment:
+            if self.annotation is None:
+                return other.annotation is not None
+            elif other.annotation is None:
+                return False
+            else:
+                return self.annotation < other.annotation
+        else:
+            return self.segment < other.segment""",
+  """    def __lt__(me, you: 'Unit'):
+        same = me.segment == you.segment
+        if not same:
+            return me.segment < you.segment
+        if me.annotation is None:
+            return not (you.annotation is None)
+        if you.annotation is None:
+            return False
+        return me.annotation < you.annotation""")
+B("C13", "bounds-via-property-in-copy", CONT,
+  """        continuum._categories = SortedSet(self._categories)
+        continuum.bound_inf, continuum.bound_sup = self.bound_inf, self.bound_sup""",
+  """        continuum._categories = SortedSet(self._categories)
+        continuum.bound_inf, continuum.bound_sup = self.bounds""")
+B("C13", "reset-bounds-min-over-all-units", CONT,
+  """        self.bound_inf = min((next(iter(annotations)).segment.start for annotations in self._annotations.values() if annotations),
+                             default=0.0)""",
+  """        self.bound_inf = min((unit.segment.start for _, unit in self), default=0.0)""")
+B("C13", "add-statements-reordered", CONT,
+  """        self._annotations[annotator].add(Unit(segment, annotation))
+        self.bound_inf = min(self.bound_inf, segment.start)
+        self.bound_sup = max(self.bound_sup, segment.end)""",
+  """        self.bound_sup = max(segment.end, self.bound_sup)
+        self.bound_inf = min(segment.start, self.bound_inf)
+        new_unit = Unit(segment, annotation)
+        self._annotations[annotator].add(new_unit)""")
